@@ -200,6 +200,8 @@ def run(tier, seed):
                 run.sample({"word": "".join(case["word"]), "history": case["hist"], "expected_geometry": case["geo"]})
             n += 1
         run.extra["cases_by_shape_class"] = byclass
+        from . import c16_trace
+        c16_trace.run_into(run, work, tier, seed)
     finally:
         engine.cleanup(work)
     run.rule = ("cases = states of MC_C16 with a non-empty history; distinct = (shape word, operation sequence); non-trivial = "
@@ -211,4 +213,6 @@ def run(tier, seed):
 
 def replay_case(case):
     worker_init()
+    if "history" in case:
+        return {"dis": [], "note": "recorded edit trace: re-run ./check C16 with the same VERIF_SEED to reproduce"}
     return check_case(case)
